@@ -282,7 +282,15 @@ def gen_malformed(rng, kind, cause=None):
                 t["io"] = sorted(-abs(x) - (0.01 if x == 0 else 0.0) for x in t["io"])
         elif cause == "shape_mismatch":
             r = rng.random()
-            if r < 0.3:
+            nv, ni = len(t["vi"]), len(t["io"])
+            if rng.random() < 0.3 and nv != ni and nv * ni > 1:
+                # the RIGHT NUMBER of values in the wrong shape: transposed, or everything in one row
+                flat = [x for row in t[z] for x in row]
+                if rng.random() < 0.5 and nv > 1:
+                    t[z] = [flat]
+                else:
+                    t[z] = [flat[k * nv:(k + 1) * nv] for k in range(ni)]
+            elif r < 0.3:
                 t["vi"] = t["vi"] + [t["vi"][-1] + 1.0]
             elif r < 0.5 and len(t["vi"]) > 1:
                 t["vi"] = t["vi"][:-1]
